@@ -1,7 +1,9 @@
 (* Proofs about the Lru machine, part 3: every step preserves the invariant, and what a step may return. *)
-From AV Require Import Base Lru LruLockFacts LruDict LruProofs LruInv.
+From AV Require Import Base Lru LruLockFacts LruDict LruProofs LruInv LruCount.
 From AV Require Lock LockProofs.
 From Coq Require Import Sorting.Sorted ZifyBool.
+
+Definition Inv (cf : cfg) (s : st) : Prop := Inv1 cf s /\ Inv2 cf s.
 
 (* what a step of a state satisfying the invariant may return *)
 Definition good (s' : st) (r : res) : Prop :=
@@ -20,204 +22,362 @@ Proof. unfold release. rewrite lock_do_eq. reflexivity. Qed.
 Lemma good_plain s r : r <> RLockErr -> r <> RKeyError -> good s r.
 Proof. intros H1 H2. split; auto. Qed.
 
+Lemma init_inv cf : Inv cf init.
+Proof. split; [apply init_inv1|apply init_inv2]. Qed.
+
+(* transport along pointwise-equal components *)
+Lemma inv_same cf s s' :
+  Inv cf s ->
+  (forall g, dicts s' g = dicts s g) -> cur s' = cur s -> currsize s' = currsize s -> locks s' = locks s ->
+  nlock s' = nlock s -> (forall c, phase s' c = phase s c) ->
+  now s' = now s -> clk s' = clk s -> lkey s' = lkey s -> produced s' = produced s -> fl s' = fl s ->
+  Inv cf s'.
+Proof.
+  intros [I J] E1 E2 E3 E4 E5 E6 E7 E8 E9 E10 E11.
+  assert (F : forall f : flagset -> bool, f (fl s') = false -> f (fl s) = false) by (intros f; now rewrite E11).
+  split.
+  - apply (inv1_same _ _ _ I); auto; apply F.
+  - apply (inv2_same _ _ _ J); auto; apply F.
+Qed.
+
 (* release by a holder, then idle *)
 Lemma leave_ok cf s c k l r :
   Inv cf s -> lockref (phase s c) = Some (k, l) -> In c (Lock.held (locks s l)) ->
+  (forall k0 l0 p b g, phase s c = CInWrapped k0 l0 p b g ->
+     clean5 s -> g = cur s -> dget k0 (dict s) <> Some (EPlace l0 true)) ->
   r <> RLockErr ->
   let '(s1, ok) := release s c l in
   Inv cf (fst (finish s1 c ok r)) /\ snd (finish s1 c ok r) = r.
 Proof.
-  intros I Hp Hh Hr. rewrite release_eq.
+  intros [I J] Hp Hh Hno Hr. rewrite release_eq.
   destruct (release_holder (locks s l) c (L_inv _ _ _ _ _ (I_lp _ _ I) l) Hh) as [E Hne].
-  rewrite E. cbn [finish fst snd]. split; [|reflexivity].
-  apply (inv_out cf s c k l (Lock.Release c) I Hp eq_refl Hne).
+  rewrite E. cbn [finish fst snd]. split; [|reflexivity]. split.
+  - apply (inv1_out cf s c k l (Lock.Release c) I Hp eq_refl Hne).
+  - apply inv2_phase; [apply inv2_set_lock, J| |sm; apply (I_nodup _ _ I)].
+    sm. intros k0 l0 p b g H. right. intros HC Hg. apply (Hno _ _ _ _ _ H); auto.
 Qed.
 
-Lemma body_ok cf s c k l t0 :
-  Inv cf s -> phase s c = CLockWait k l t0 -> In c (Lock.held (locks s l)) ->
-  Inv cf (fst (body cf s c k l)) /\ good (fst (body cf s c k l)) (snd (body cf s c k l)).
+Lemma body_ok cf s c k l t0 g :
+  Inv cf s -> phase s c = CLockWait k l t0 g -> In c (Lock.held (locks s l)) ->
+  Inv cf (fst (body cf s c k l g)) /\ good (fst (body cf s c k l g)) (snd (body cf s c k l g)).
 Proof.
-  intros I Hp Hh. unfold body. destruct (dfind k (dict s)) as [x|] eqn:Hfind.
-  - pose proof (dget_find _ _ _ Hfind) as Hd. destruct (se x) as [l'|v e] eqn:Hse.
+  intros [I J] Hp Hh. unfold body. destruct (dfind k (dicts s g)) as [x|] eqn:Hfind.
+  - pose proof (dget_find _ _ _ Hfind) as Hd. destruct (se x) as [l' b'|v e] eqn:Hse.
     + cbv zeta.
       assert (Efull : full cf (set_counts s (hits s) (S (misses s)) (currsize s)) = full cf s) by reflexivity.
       rewrite Efull. destruct (full cf s) eqn:Hfull.
-      * unfold evict. sm. destruct (dict s) as [|x0 r] eqn:Hdict; [discriminate|].
+      * unfold evict. sm. destruct (dicts s g) as [|x0 r] eqn:Hdict; [discriminate|].
         split; [|apply good_plain; discriminate].
-        assert (Hd' : dget k (dict s) = Some (EPlace l')) by (rewrite Hdict; exact Hd).
-        exact (inv_miss_evict cf s c k l t0 l' x0 r I Hp Hh Hd' Hdict).
-      * split; [|apply good_plain; discriminate].
-        exact (inv_miss_noevict cf s c k l t0 l' I Hp Hh Hd Hfull).
+        assert (Hd' : dget k (dicts s g) = Some (EPlace l' b')) by (rewrite Hdict; exact Hd).
+        pose proof (inv1_miss_evict cf s c k l t0 g l' b' x0 r I Hp Hh Hd' Hdict) as I'.
+        pose proof (inv2_miss_evict cf s c k l t0 g l' b' x0 r I J Hp Hh Hd' Hdict) as J'.
+        split.
+        -- apply (inv1_same _ _ _ I'); sm; try reflexivity; try (intros H; exact H).
+           intros g0. destruct (Nat.eq_dec g0 g) as [->|N]; [now rewrite !upd_same|now rewrite !upd_other].
+        -- apply (inv2_same _ _ _ J'); sm; try reflexivity; try (intros H; exact H).
+           intros g0. destruct (Nat.eq_dec g0 g) as [->|N]; [now rewrite !upd_same|now rewrite !upd_other].
+      * split; [|apply good_plain; discriminate]. split.
+        -- exact (inv1_miss_noevict cf s c k l t0 g l' b' _ I Hp Hh Hd).
+        -- exact (inv2_miss_noevict cf s c k l t0 g l' b' I J Hp Hh Hd Hfull).
     + cbv zeta.
-      set (s2 := bump_clk (set_dict (set_counts s (S (hits s)) (misses s) (currsize s))
+      set (s2 := bump_clk (set_dict (set_counts s (S (hits s)) (misses s) (currsize s)) g
                                     (dmove k (clk (set_counts s (S (hits s)) (misses s) (currsize s)))
-                                           (dict (set_counts s (S (hits s)) (misses s) (currsize s)))))).
-      assert (I2 : Inv cf s2) by exact (inv_touch cf s k (S (hits s)) (misses s) I).
+                                           (dicts (set_counts s (S (hits s)) (misses s) (currsize s)) g)))).
+      assert (I2 : Inv cf s2).
+      { split; [exact (inv1_touch cf s g k (S (hits s)) (misses s) I)|
+                exact (inv2_touch cf s g k (S (hits s)) (misses s) I J)]. }
       assert (Hp2 : lockref (phase s2 c) = Some (k, l)) by (unfold s2; sm; now rewrite Hp).
       assert (Hh2 : In c (Lock.held (locks s2 l))) by exact Hh.
-      pose proof (leave_ok cf s2 c k l (RRet v) I2 Hp2 Hh2 ltac:(discriminate)) as H.
+      assert (Hno : forall k0 l0 p b g0, phase s2 c = CInWrapped k0 l0 p b g0 ->
+                clean5 s2 -> g0 = cur s2 -> dget k0 (dict s2) <> Some (EPlace l0 true)).
+      { intros k0 l0 p b g0 H. unfold s2 in H. sm. congruence. }
+      pose proof (leave_ok cf s2 c k l (RRet v) I2 Hp2 Hh2 Hno ltac:(discriminate)) as H.
       destruct (release s2 c l) as [s3 ok]. destruct H as [H1 H2]. split; [exact H1|].
       rewrite H2. apply good_plain; discriminate.
-  - pose proof (leave_ok cf s c k l RKeyError I ltac:(now rewrite Hp) Hh ltac:(discriminate)) as H.
+  - assert (Hno : forall k0 l0 p b g0, phase s c = CInWrapped k0 l0 p b g0 ->
+              clean5 s -> g0 = cur s -> dget k0 (dict s) <> Some (EPlace l0 true)) by (intros; congruence).
+    pose proof (leave_ok cf s c k l RKeyError (conj I J) ltac:(now rewrite Hp) Hh Hno ltac:(discriminate)) as H.
     pose proof (release_eq s c l) as Er.
     destruct (release s c l) as [s1 ok]. destruct H as [H1 H2]. split; [exact H1|].
     rewrite H2. split; [discriminate|]. intros Hf Hw _.
     injection Er as -> _. cbn [finish fst] in Hf, Hw. sm.
-    destruct (I_B _ _ I Hf Hw _ _ _ _ Hp) as [H|(v & e & H)]; rewrite (dget_none_find _ _ Hfind) in H; discriminate.
+    destruct (I_B _ _ I Hf Hw _ _ _ _ _ Hp) as [[b H]|(v & e & H)]; rewrite (dget_none_find _ _ Hfind) in H; discriminate.
 Qed.
 
-Lemma acquire_ok cf s c k l :
-  Inv cf s -> phase s c = CIdle -> c < ncall cf -> dget k (dict s) = Some (EPlace l) ->
-  l < nlock s -> lkey s l = k ->
+(* the state after an idle caller was marked and began to acquire the entry's lock *)
+Lemma mark_inv cf s c k l b0 :
+  Inv cf s -> phase s c = CIdle -> c < ncall cf -> dget k (dict s) = Some (EPlace l b0) ->
+  l < nlock s -> lkey s l = k -> is_zero_max cf = false ->
+  engaged (fst (Lock.step (locks s l) (Lock.AcqBegin c))) c ->
+  Inv cf (set_lock (set_phase s c (CLockWait k l (now s) (cur s))) l
+                   (fst (Lock.step (locks s l) (Lock.AcqBegin c)))).
+Proof.
+  intros [I J] Hp Hc Hd Hl Hk Hz He. split; [apply (inv1_mark cf s c k l b0); auto|].
+  apply inv2_set_lock. apply inv2_phase; [exact J| |apply (I_nodup _ _ I)].
+  intros k0 l0 p b g H. congruence.
+Qed.
+
+Lemma acquire_ok cf s c k l b0 :
+  Inv cf s -> phase s c = CIdle -> c < ncall cf -> dget k (dict s) = Some (EPlace l b0) ->
+  l < nlock s -> lkey s l = k -> is_zero_max cf = false ->
   Inv cf (fst (acquire cf s c k l)) /\ good (fst (acquire cf s c k l)) (snd (acquire cf s c k l)).
 Proof.
-  intros I Hp Hc Hd Hl Hk. unfold acquire. rewrite lock_do_eq. sm.
+  intros IJ Hp Hc Hd Hl Hk Hz. pose proof IJ as [I J]. unfold acquire. cbv zeta. rewrite lock_do_eq. sm.
   assert (Hne : ~ engaged (locks s l) c).
   { eapply LP_idle_not_engaged; [apply (I_lp _ _ I)|]. now rewrite Hp. }
   destruct (acq_begin_cases (locks s l) c (L_inv _ _ _ _ _ (I_lp _ _ I) l) Hne) as [[E Hh]|[E Hph]]; rewrite E.
-  - set (s1 := set_lock (set_phase s c (CLockWait k l (now s))) l (fst (Lock.step (locks s l) (Lock.AcqBegin c)))).
-    assert (I1 : Inv cf s1) by (apply inv_mark; auto; right; exact Hh).
-    apply (body_ok cf s1 c k l (now s) I1).
+  - set (s1 := set_lock (set_phase s c (CLockWait k l (now s) (cur s))) l
+                        (fst (Lock.step (locks s l) (Lock.AcqBegin c)))).
+    assert (I1 : Inv cf s1) by (eapply mark_inv; eauto; right; exact Hh).
+    apply (body_ok cf s1 c k l (now s) (cur s) I1).
     + unfold s1. sm. apply upd_same.
     + unfold s1. sm. rewrite upd_same. exact Hh.
   - cbn [fst snd]. split; [|apply good_plain; discriminate].
-    apply inv_mark; auto. left. exact Hph.
+    eapply mark_inv; eauto. left. exact Hph.
 Qed.
 
-Ltac rejected I := cbn [fst snd]; split; [exact I|apply good_plain; discriminate].
+Lemma acquire_x_ok cf s c k l b0 :
+  Inv cf s -> phase s c = CIdle -> c < ncall cf -> dget k (dict s) = Some (EPlace l b0) ->
+  l < nlock s -> lkey s l = k -> is_zero_max cf = false ->
+  Inv cf (fst (acquire_x cf s c k l)) /\ good (fst (acquire_x cf s c k l)) (snd (acquire_x cf s c k l)).
+Proof.
+  intros IJ Hp Hc Hd Hl Hk Hz. pose proof IJ as [I J]. unfold acquire_x.
+  assert (Hne : ~ engaged (locks s l) c).
+  { eapply LP_idle_not_engaged; [apply (I_lp _ _ I)|]. now rewrite Hp. }
+  assert (Hentry : Inv cf (set_phase s c (CEntryCk k))).
+  { split.
+    - apply inv1_phase_noref; [exact I|exact Hc|now rewrite Hp|reflexivity|discriminate|discriminate].
+    - apply inv2_phase; [exact J| |apply (I_nodup _ _ I)]. intros; congruence. }
+  destruct (Lock.owner (locks s l)) as [ow|] eqn:Eo; destruct (Lock.waiters (locks s l)) as [|w ws] eqn:Ew;
+    try (cbn [fst snd]; split; [exact Hentry|apply good_plain; discriminate]).
+  all: rewrite lock_do_eq; sm;
+    destruct (acq_begin_cases (locks s l) c (L_inv _ _ _ _ _ (I_lp _ _ I) l) Hne) as [[E Hh]|[E Hph]]; rewrite E.
+  all: try (exfalso; revert E; cbn [Lock.step];
+            destruct (not_engaged_idle _ _ Hne) as [Hi _]; rewrite Hi, Eo, Ew; cbn;
+            repeat match goal with |- context [if ?b then _ else _] => destruct b end; cbn; discriminate).
+  all: rewrite lock_do_eq; cbn [fst snd]; (split; [|apply good_plain; discriminate]).
+  all: set (s1 := set_lock (set_phase s c (CLockWait k l (now s) (cur s))) l
+                           (fst (Lock.step (locks s l) (Lock.AcqBegin c))));
+    assert (I1 : Inv cf s1) by (eapply mark_inv; eauto; left; exact Hph);
+    assert (Hp1 : phase s1 c = CLockWait k l (now s) (cur s)) by (unfold s1; sm; apply upd_same);
+    destruct I1 as [I1 J1];
+    assert (Heng : engaged (fst (Lock.step (locks s1 l) (Lock.Cancel c))) c)
+      by (destruct (cancel_same (locks s1 l) c) as [E1 E2]; unfold engaged; rewrite E1, E2;
+          apply (L_wait _ _ _ _ _ (I_lp _ _ I1) _ _ _ _ _ Hp1));
+    (split; [exact (inv1_lock_only cf s1 c k l (now s) (cur s) (Lock.Cancel c) I1 Hp1 eq_refl Heng)
+            |apply inv2_set_lock, J1]).
+Qed.
+
+Ltac rejected IJ := cbn [fst snd]; split; [exact IJ|apply good_plain; discriminate].
+
+Lemma enter_ok cf s c a x :
+  Inv cf s -> Inv cf (fst (enter cf s c a x)) /\ good (fst (enter cf s c a x)) (snd (enter cf s c a x)).
+Proof.
+  intros IJ. pose proof IJ as [I J]. unfold enter.
+  destruct (Nat.ltb c (ncall cf)) eqn:Hlt; cbn [negb]; [|rejected IJ]. apply Nat.ltb_lt in Hlt.
+  destruct (phase s c) eqn:Hp; cbn [is_cidle negb]; try (rejected IJ).
+  set (k := key_of cf a).
+  destruct (is_zero_max cf) eqn:Hz.
+  { cbn [fst snd]. split; [|apply good_plain; discriminate]. split.
+    - apply inv1_phase_noref; [|exact Hlt| |reflexivity|discriminate|intros _; exact Hz].
+      + apply inv1_fl; [exact I| | |]; sm; auto.
+      + sm. now rewrite Hp.
+    - apply inv2_phase.
+      + apply inv2_fl; [exact J| | | | |]; sm; auto.
+      + sm. intros; congruence.
+      + sm. apply (I_nodup _ _ I). }
+  cbv zeta.
+  set (s0 := set_has_dict s).
+  assert (IJ0 : Inv cf s0) by (split; [apply inv1_has_dict, I|apply inv2_has_dict, J]).
+  assert (Hp0 : phase s0 c = CIdle) by exact Hp.
+  assert (Hacq : forall s1 l b0, Inv cf s1 -> phase s1 c = CIdle -> dget k (dict s1) = Some (EPlace l b0) ->
+            l < nlock s1 -> lkey s1 l = k ->
+            Inv cf (fst ((if x then acquire_x else acquire) cf s1 c k l)) /\
+            good (fst ((if x then acquire_x else acquire) cf s1 c k l))
+                 (snd ((if x then acquire_x else acquire) cf s1 c k l))).
+  { intros s1 l b0 I1 H1 H2 H3 H4. destruct x; [eapply acquire_x_ok|eapply acquire_ok]; eauto. }
+  clearbody s0. clear IJ I J Hp s. rename s0 into s. pose proof IJ0 as [I J].
+  destruct (dfind k (dict s)) as [y|] eqn:Hfind.
+  - destruct (dfind_some _ _ _ Hfind) as [Hky Hin]. destruct (se y) as [l b|v exp] eqn:Hse.
+    + destruct (I_place _ _ I _ y l b Hin Hse) as [H1 H2].
+      eapply Hacq; eauto; [rewrite (dget_find _ _ _ Hfind), Hse; reflexivity|congruence].
+    + destruct (expired exp (now s)) eqn:Hexp.
+      * set (s4 := bump_clk _).
+        set (sm := mk (upd (dicts s) (cur s) (dset_in k (EPlace (nlock s) false) (dict s))) (cur s) (has_dict s)
+                      (hits s) (misses s) (currsize s - 1)%Z
+                      (upd (locks s) (nlock s) (Lock.init (negb (ackpt cf)))) (S (nlock s)) (phase s) (now s)
+                      (clk s) (upd (lkey s) (nlock s) k) (produced s)
+                      (fl_or_waited (fl s) (waited cf s k (cur s)))).
+        assert (Im : Inv cf sm) by (split; [exact (inv1_expire cf s k y v exp I Hfind Hse)|
+                                             exact (inv2_expire cf s k y v exp J Hfind Hse)]).
+        assert (I4 : Inv cf s4).
+        { destruct Im as [Im1 Im2].
+          pose proof (inv1_touch cf sm (cur sm) k (hits s) (misses s) Im1) as T1.
+          pose proof (inv2_touch cf sm (cur sm) k (hits s) (misses s) Im1 Im2) as T2.
+          split.
+          - apply (inv1_same _ _ _ T1); unfold s4, sm; sm; try reflexivity; try (intros H; exact H).
+            intros g0. destruct (Nat.eq_dec g0 (cur s)) as [->|N]; [now rewrite !upd_same|now rewrite !upd_other].
+          - apply (inv2_same _ _ _ T2); unfold s4, sm; sm; try reflexivity; try (intros H; exact H).
+            intros g0. destruct (Nat.eq_dec g0 (cur s)) as [->|N]; [now rewrite !upd_same|now rewrite !upd_other]. }
+        apply (Hacq s4 (nlock s) false I4).
+        -- exact Hp0.
+        -- unfold s4. sm. rewrite upd_same, dget_dmove, dget_dset_in_same, (dget_find _ _ _ Hfind). reflexivity.
+        -- unfold s4. sm. lia.
+        -- unfold s4. sm. apply upd_same.
+      * set (s2 := bump_clk _).
+        assert (I2 : Inv cf s2).
+        { split; [exact (inv1_touch cf s (cur s) k (S (hits s)) (misses s) I)|
+                  exact (inv2_touch cf s (cur s) k (S (hits s)) (misses s) I J)]. }
+        destruct (ackpt cf); cbn [fst snd].
+        -- split; [|apply good_plain; discriminate]. destruct I2 as [I21 I22]. split.
+           ++ apply inv1_phase_noref; [exact I21|exact Hlt|unfold s2; sm; now rewrite Hp0|reflexivity| |discriminate].
+              intros k0 v0 b [= <- <- _]. unfold s2. sm. rewrite <- Hky. apply (I_vdict _ _ I _ y v exp Hin Hse).
+           ++ apply inv2_phase; [exact I22| |apply (I_nodup _ _ I21)].
+              unfold s2. sm. intros; congruence.
+        -- split; [exact I2|apply good_plain; discriminate].
+  - set (s2 := bump_clk _).
+    assert (I2 : Inv cf s2) by (split; [exact (inv1_install cf s k I Hfind)|exact (inv2_install cf s k J)]).
+    apply (Hacq s2 (nlock s) false I2).
+    + exact Hp0.
+    + unfold s2. sm. rewrite upd_same, dget_app, (dget_none_find _ _ Hfind), Nat.eqb_refl. reflexivity.
+    + unfold s2. sm. lia.
+    + unfold s2. sm. apply upd_same.
+Qed.
+
+Lemma phase_only cf s c p' :
+  Inv cf s -> c < ncall cf -> lockref (phase s c) = None -> lockref p' = None ->
+  (forall k v b, p' = CHitCk k v b -> In (k, v) (produced s)) ->
+  (is_bypass p' = true -> is_zero_max cf = true) ->
+  Inv cf (set_phase s c p').
+Proof.
+  intros [I J] Hc H1 H2 H3 H4. split; [now apply inv1_phase_noref|].
+  apply inv2_phase; [exact J| |apply (I_nodup _ _ I)].
+  intros k l p b g H. rewrite H in H1. discriminate.
+Qed.
+
+Lemma running_only cf s c k l p b g p2 b2 :
+  Inv cf s -> phase s c = CInWrapped k l p b g -> Inv cf (set_phase s c (CInWrapped k l p2 b2 g)).
+Proof.
+  intros [I J] Hp. split; [eapply inv1_phase_running; eauto|].
+  apply inv2_phase; [exact J| |apply (I_nodup _ _ I)].
+  intros k0 l0 p0 b0 g0 H. left. rewrite Hp in H. injection H as <- <- _ _ <-. eauto.
+Qed.
 
 Lemma step_ok cf s o :
   Inv cf s -> Inv cf (fst (step cf s o)) /\ good (fst (step cf s o)) (snd (step cf s o)).
 Proof.
-  intros I. destruct o as [c a|c v|c e|c|c| |]; unfold step.
-  - (* Call *)
-    destruct (Nat.ltb c (ncall cf)) eqn:Hlt; cbn [negb]; [|rejected I]. apply Nat.ltb_lt in Hlt.
-    destruct (phase s c) eqn:Hp; cbn [is_cidle negb]; try (rejected I).
-    set (k := key_of cf a).
-    destruct (is_zero_max cf).
-    { cbn [fst snd]. split; [|apply good_plain; discriminate].
-      apply inv_phase_noref; auto; [now rewrite Hp|discriminate]. }
-    destruct (dfind k (dict s)) as [x|] eqn:Hfind.
-    + destruct (dfind_some _ _ _ Hfind) as [Hkx Hin]. destruct (se x) as [l|v exp] eqn:Hse.
-      * destruct (I_place _ _ I x l Hin Hse) as [H1 H2].
-        apply acquire_ok; [exact I|exact Hp|exact Hlt| |exact H1|congruence].
-        rewrite (dget_find _ _ _ Hfind), Hse. reflexivity.
-      * destruct (expired exp (now s)) eqn:Hexp.
-        -- cbv zeta.
-           set (s4 := bump_clk _).
-           assert (I4 : Inv cf s4)
-             by exact (inv_touch cf _ k (hits s) (misses s) (inv_expire cf s k x v exp I Hfind Hse)).
-           apply acquire_ok; [exact I4|exact Hp|exact Hlt| | |].
-           ++ unfold s4. sm. rewrite dget_dmove, dget_dset_in_same, (dget_find _ _ _ Hfind). reflexivity.
-           ++ unfold s4. sm. lia.
-           ++ unfold s4. sm. apply upd_same.
-        -- cbv zeta.
-           set (s2 := bump_clk _).
-           assert (I2 : Inv cf s2) by exact (inv_touch cf s k (S (hits s)) (misses s) I).
-           destruct (ackpt cf); cbn [fst snd].
-           ++ split; [|apply good_plain; discriminate].
-              apply inv_phase_noref; auto; [unfold s2; sm; now rewrite Hp|].
-              intros k0 v0 b [= <- <- _]. unfold s2. sm. rewrite <- Hkx. apply (I_vdict _ _ I x v exp Hin Hse).
-           ++ split; [exact I2|apply good_plain; discriminate].
-    + cbv zeta.
-      set (s2 := bump_clk _).
-      assert (I2 : Inv cf s2) by exact (inv_install cf s k I Hfind).
-      apply acquire_ok; [exact I2|exact Hp|exact Hlt| | |].
-      * unfold s2. sm. rewrite dget_app, (dget_none_find _ _ Hfind), Nat.eqb_refl. reflexivity.
-      * unfold s2. sm. lia.
-      * unfold s2. sm. apply upd_same.
+  intros IJ. pose proof IJ as [I J]. destruct o as [c a|c a|c v|c e|c|c| | |]; unfold step.
+  - apply enter_ok, IJ.
+  - apply enter_ok, IJ.
   - (* WrappedReturns *)
-    destruct (phase s c) as [|k l t0|k l [w|] [|]|k v0 b|k [w|] [|]] eqn:Hp; try (rejected I);
+    destruct (phase s c) as [|k|k l t0 g|k l [w|] [|] g|k v0 b|k [w|] [|]] eqn:Hp; try (rejected IJ);
       cbn [fst snd]; (split; [|apply good_plain; discriminate]).
-    + eapply inv_phase_running; eauto.
+    + eapply running_only; eauto.
     + assert (Hc : c < ncall cf) by (apply (L_ncall _ _ _ _ _ (I_lp _ _ I)); congruence).
-      apply inv_phase_noref; auto; [now rewrite Hp|discriminate].
+      apply phase_only; [exact IJ|exact Hc|now rewrite Hp|reflexivity|discriminate|].
+      intros _. apply (I_byp _ _ I c). now rewrite Hp.
   - (* WrappedRaises *)
-    destruct (phase s c) as [|k l t0|k l [w|] [|]|k v0 b|k [w|] [|]] eqn:Hp; try (rejected I);
+    destruct (phase s c) as [|k|k l t0 g|k l [w|] [|] g|k v0 b|k [w|] [|]] eqn:Hp; try (rejected IJ);
       cbn [fst snd]; (split; [|apply good_plain; discriminate]).
-    + eapply inv_phase_running; eauto.
+    + eapply running_only; eauto.
     + assert (Hc : c < ncall cf) by (apply (L_ncall _ _ _ _ _ (I_lp _ _ I)); congruence).
-      apply inv_phase_noref; auto; [now rewrite Hp|discriminate].
+      apply phase_only; [exact IJ|exact Hc|now rewrite Hp|reflexivity|discriminate|].
+      intros _. apply (I_byp _ _ I c). now rewrite Hp.
   - (* CancelCaller *)
-    destruct (phase s c) as [|k l t0|k l w b|k v0 b|k w b] eqn:Hp; try (rejected I).
+    destruct (phase s c) as [|k|k l t0 g|k l w b g|k v0 b|k w b] eqn:Hp; try (rejected IJ).
     + rewrite lock_do_eq. cbn [fst snd]. split; [|apply good_plain; discriminate].
-      apply (inv_lock_only cf s c k l t0 (Lock.Cancel c) I Hp eq_refl).
-      destruct (cancel_same (locks s l) c) as [E1 E2]. unfold engaged. rewrite E1, E2.
-      apply (L_wait _ _ _ _ _ (I_lp _ _ I) _ _ _ _ Hp).
-    + cbn [fst snd]. split; [|apply good_plain; discriminate]. eapply inv_phase_running; eauto.
+      assert (Heng : engaged (fst (Lock.step (locks s l) (Lock.Cancel c))) c).
+      { destruct (cancel_same (locks s l) c) as [E1 E2]. unfold engaged. rewrite E1, E2.
+        apply (L_wait _ _ _ _ _ (I_lp _ _ I) _ _ _ _ _ Hp). }
+      split; [exact (inv1_lock_only cf s c k l t0 g (Lock.Cancel c) I Hp eq_refl Heng)|apply inv2_set_lock, J].
+    + cbn [fst snd]. split; [|apply good_plain; discriminate]. eapply running_only; eauto.
     + assert (Hc : c < ncall cf) by (apply (L_ncall _ _ _ _ _ (I_lp _ _ I)); congruence).
       cbn [fst snd]. split; [|apply good_plain; discriminate].
-      apply inv_phase_noref; auto; [now rewrite Hp|].
+      apply phase_only; [exact IJ|exact Hc|now rewrite Hp|reflexivity| |discriminate].
       intros k0 v1 b0 [= <- <- _]. apply (I_vhit _ _ I _ _ _ _ Hp).
     + assert (Hc : c < ncall cf) by (apply (L_ncall _ _ _ _ _ (I_lp _ _ I)); congruence).
       cbn [fst snd]. split; [|apply good_plain; discriminate].
-      apply inv_phase_noref; auto; [now rewrite Hp|discriminate].
+      apply phase_only; [exact IJ|exact Hc|now rewrite Hp|reflexivity|discriminate|].
+      intros _. apply (I_byp _ _ I c). now rewrite Hp.
   - (* Resume *)
-    destruct (phase s c) as [|k l t0|k l w b|k v0 b|k w b] eqn:Hp; try (rejected I).
+    destruct (phase s c) as [|k|k l t0 g|k l w b g|k v0 b|k w b] eqn:Hp; try (rejected IJ).
+    + (* cancelled at the lock entry *)
+      assert (Hc : c < ncall cf) by (apply (L_ncall _ _ _ _ _ (I_lp _ _ I)); congruence).
+      cbn [fst snd]. split; [|apply good_plain; discriminate].
+      apply phase_only; [exact IJ|exact Hc|now rewrite Hp|reflexivity|discriminate|discriminate].
     + (* suspended in lock.acquire() *)
       rewrite lock_do_eq.
-      destruct (Lock.phase_of (locks s l) c) eqn:Hlp.
+      assert (Hcases : Lock.phase_of (locks s l) c = Lock.Idle \/ Lock.phase_of (locks s l) c <> Lock.Idle)
+        by (destruct (Lock.phase_of (locks s l) c); [left; reflexivity|right; discriminate|right; discriminate]).
+      destruct Hcases as [Hlp|Hlp].
       * assert (E : Lock.step (locks s l) (Lock.Resume c) = (locks s l, Lock.RRejected))
           by (cbn [Lock.step]; now rewrite Hlp).
-        rewrite E. rejected I.
-      * destruct (resume_cases (locks s l) c (L_inv _ _ _ _ _ (I_lp _ _ I) l) ltac:(congruence))
+        rewrite E. rejected IJ.
+      * destruct (resume_cases (locks s l) c (L_inv _ _ _ _ _ (I_lp _ _ I) l) Hlp)
           as [[E Hh]|[[E Hne]|[E _]]]; rewrite E.
         -- set (s1 := set_lock s l _).
-           assert (I1 : Inv cf s1)
-             by (apply (inv_lock_only cf s c k l t0 (Lock.Resume c) I Hp eq_refl); right; exact Hh).
-           apply (body_ok cf s1 c k l t0 I1); [exact Hp|]. unfold s1. sm. rewrite upd_same. exact Hh.
-        -- cbn [fst snd]. split; [|apply good_plain; discriminate].
-           apply (inv_out cf s c k l (Lock.Resume c) I); [now rewrite Hp|reflexivity|exact Hne].
-        -- rejected I.
-      * destruct (resume_cases (locks s l) c (L_inv _ _ _ _ _ (I_lp _ _ I) l) ltac:(congruence))
-          as [[E Hh]|[[E Hne]|[E _]]]; rewrite E.
-        -- set (s1 := set_lock s l _).
-           assert (I1 : Inv cf s1)
-             by (apply (inv_lock_only cf s c k l t0 (Lock.Resume c) I Hp eq_refl); right; exact Hh).
-           apply (body_ok cf s1 c k l t0 I1); [exact Hp|]. unfold s1. sm. rewrite upd_same. exact Hh.
-        -- cbn [fst snd]. split; [|apply good_plain; discriminate].
-           apply (inv_out cf s c k l (Lock.Resume c) I); [now rewrite Hp|reflexivity|exact Hne].
-        -- rejected I.
+           assert (I1 : Inv cf s1).
+           { split; [|apply inv2_set_lock, J].
+             apply (inv1_lock_only cf s c k l t0 g (Lock.Resume c) I Hp eq_refl). right. exact Hh. }
+           apply (body_ok cf s1 c k l t0 g I1); [exact Hp|]. unfold s1. sm. rewrite upd_same. exact Hh.
+        -- cbn [fst snd]. split; [|apply good_plain; discriminate]. split.
+           ++ apply (inv1_out cf s c k l (Lock.Resume c) I); [now rewrite Hp|reflexivity|exact Hne].
+           ++ apply inv2_phase; [apply inv2_set_lock, J| |sm; apply (I_nodup _ _ I)].
+              sm. intros; congruence.
+        -- rejected IJ.
     + (* inside the wrapped function *)
-      pose proof (L_run _ _ _ _ _ (I_lp _ _ I) _ _ _ _ _ Hp) as Hh.
-      assert (Hr : lockref (phase s c) = Some (k, l)) by now rewrite Hp.
+      pose proof (L_run _ _ _ _ _ (I_lp _ _ I) _ _ _ _ _ _ Hp) as Hh.
+      set (sd := set_fl s (fl_or_dead (fl s) (dead_left k (dicts s g)))).
+      assert (Id : Inv cf sd).
+      { split; [apply inv1_fl; [exact I| | |]; sm; auto|].
+        apply inv2_fl; [exact J| | | | |]; sm; auto. intros H. apply orb_false_elim in H. tauto. }
+      assert (Hrd : lockref (phase sd c) = Some (k, l)) by (unfold sd; sm; now rewrite Hp).
+      assert (Hnod : forall k0 l0 p0 b0 g0, phase sd c = CInWrapped k0 l0 p0 b0 g0 ->
+                clean5 sd -> g0 = cur sd -> dget k0 (dict sd) <> Some (EPlace l0 true)).
+      { intros k0 l0 p0 b0 g0 H (_ & _ & _ & Hdd & _) Hg Hget. unfold sd in *. sm.
+        rewrite Hp in H. injection H as <- <- _ _ <-. subst g.
+        apply orb_false_elim in Hdd. destruct Hdd as [_ Hdd]. unfold dead_left in Hdd.
+        destruct (dget_some _ _ _ Hget) as (y & Ey & Hsy & _). rewrite Ey, Hsy in Hdd. discriminate. }
       destruct b.
-      * pose proof (leave_ok cf s c k l RCancelled I Hr Hh ltac:(discriminate)) as H.
-        destruct (release s c l) as [s1 ok]. destruct H as [H1 H2]. split; [exact H1|].
+      * pose proof (leave_ok cf sd c k l RCancelled Id Hrd Hh Hnod ltac:(discriminate)) as H.
+        destruct (release sd c l) as [s1 ok]. destruct H as [H1 H2]. split; [exact H1|].
         rewrite H2. apply good_plain; discriminate.
-      * destruct w as [[v|e]|]; [| |rejected I].
+      * destruct w as [[v|e]|]; [| |rejected IJ].
         -- cbv zeta.
            set (s2 := bump_clk _).
            rewrite (release_eq s2 c l).
            destruct (release_holder (locks s l) c (L_inv _ _ _ _ _ (I_lp _ _ I) l) Hh) as [E Hne].
            change (locks s2 l) with (locks s l). rewrite E. cbn [finish fst snd].
            split; [|apply good_plain; discriminate].
-           exact (inv_store_out cf s c k l v I Hp).
-        -- pose proof (leave_ok cf s c k l (RExc e) I Hr Hh ltac:(discriminate)) as H.
-           destruct (release s c l) as [s1 ok]. destruct H as [H1 H2]. split; [exact H1|].
+           split; [exact (inv1_store_out cf s c k l v g I Hp)|exact (inv2_store_out cf s c k l v g I J Hp)].
+        -- pose proof (leave_ok cf sd c k l (RExc e) Id Hrd Hh Hnod ltac:(discriminate)) as H.
+           destruct (release sd c l) as [s1 ok]. destruct H as [H1 H2]. split; [exact H1|].
            rewrite H2. apply good_plain; discriminate.
     + (* hit checkpoint *)
       assert (Hc : c < ncall cf) by (apply (L_ncall _ _ _ _ _ (I_lp _ _ I)); congruence).
       cbn [fst snd]. split; [|apply good_plain; destruct b; discriminate].
-      apply inv_phase_noref; auto; [now rewrite Hp|discriminate].
+      apply phase_only; [exact IJ|exact Hc|now rewrite Hp|reflexivity|discriminate|discriminate].
     + (* maxsize = 0 *)
       assert (Hc : c < ncall cf) by (apply (L_ncall _ _ _ _ _ (I_lp _ _ I)); congruence).
       destruct b.
       * cbn [fst snd]. split; [|apply good_plain; discriminate].
-        apply inv_phase_noref; auto; [now rewrite Hp|discriminate].
-      * destruct w as [[v|e]|]; [| |rejected I]; cbn [fst snd]; (split; [|apply good_plain; discriminate]).
-        -- apply inv_phase_noref; auto.
-           ++ apply inv_add_produced, inv_counts, I.
+        apply phase_only; [exact IJ|exact Hc|now rewrite Hp|reflexivity|discriminate|discriminate].
+      * destruct w as [[v|e]|]; [| |rejected IJ]; cbn [fst snd]; (split; [|apply good_plain; discriminate]).
+        -- apply phase_only; [|exact Hc| |reflexivity|discriminate|discriminate].
+           ++ split; [apply inv1_add_produced, inv1_counts, I|apply inv2_add_produced, inv2_counts, J].
            ++ sm. now rewrite Hp.
-           ++ discriminate.
-        -- apply inv_phase_noref; auto; [now rewrite Hp|discriminate].
+        -- apply phase_only; [exact IJ|exact Hc|now rewrite Hp|reflexivity|discriminate|discriminate].
   - (* Tick *)
-    cbn [fst snd]. split; [apply inv_tick, I|apply good_plain; discriminate].
+    cbn [fst snd]. split; [split; [apply inv1_tick, I|apply inv2_tick, J]|apply good_plain; discriminate].
   - (* Clear *)
-    destruct (all_idle cf s) eqn:Hall; cbn [negb]; [|rejected I].
-    destruct (is_zero_max cf); [cbn [fst snd]; split; [exact I|apply good_plain; discriminate]|].
-    cbn [fst snd]. split; [|apply good_plain; discriminate].
-    exact (inv_clear cf s I Hall).
+    destruct (has_dict s); [|rejected IJ]. cbn [fst snd]. split; [|apply good_plain; discriminate]. split.
+    + apply inv1_newgen; [exact I|]. intros H. now destruct (all_idle cf s).
+    + apply inv2_clear.
+  - (* NewLoop *)
+    destruct (all_idle cf s) eqn:Hall; cbn [negb]; [|rejected IJ].
+    cbn [fst snd]. split; [|apply good_plain; discriminate]. split.
+    + apply inv1_newgen; [exact I|]. intros _. exact Hall.
+    + apply inv2_newloop, J.
 Qed.
 
 Definition reach (cf : cfg) (s : st) : Prop := exists ops, s = run cf ops.
@@ -227,6 +387,12 @@ Proof. intros I. apply (step_ok cf s o I). Qed.
 
 Theorem reachable_inv cf ops : Inv cf (run cf ops).
 Proof. unfold run. apply final_inv; [apply step_inv|apply init_inv]. Qed.
+
+Lemma reachable_inv1 cf ops : Inv1 cf (run cf ops).
+Proof. apply reachable_inv. Qed.
+
+Lemma reachable_inv2 cf ops : Inv2 cf (run cf ops).
+Proof. apply reachable_inv. Qed.
 
 Lemma reach_inv cf s : reach cf s -> Inv cf s.
 Proof. intros [ops ->]. apply reachable_inv. Qed.
